@@ -246,3 +246,38 @@ func VerifStateOf(t *Template) VerifTemplateState {
 	}
 	return s
 }
+
+// VerifApplySanitizer calls the named function of the internal funcs map (the run-time
+// sanitizers and URL processors) on one argument.
+func VerifApplySanitizer(name string, arg interface{}) (out string, err error, found bool) {
+	f, ok := funcs[name]
+	if !ok {
+		return "", nil, false
+	}
+	switch fn := f.(type) {
+	case func(...interface{}) string:
+		return fn(arg), nil, true
+	case func(...interface{}) (string, error):
+		s, e := fn(arg)
+		return s, e, true
+	}
+	return "", nil, false
+}
+
+// VerifURLPrefixValidatorKinds reports which sanitization contexts have a URL prefix
+// validator and which one ("url" or "tru"), decided by behaviour on two probe prefixes.
+func VerifURLPrefixValidatorKinds() map[int]string {
+	m := map[int]string{}
+	for sc, v := range urlPrefixValidators {
+		// "/x" is accepted by both validators, "http://a/" only by validateURLPrefix
+		switch {
+		case v("/x") == nil && v("http://a/") == nil:
+			m[int(sc)] = "url"
+		case v("/x") == nil:
+			m[int(sc)] = "tru"
+		default:
+			m[int(sc)] = "other"
+		}
+	}
+	return m
+}
